@@ -595,7 +595,11 @@ VALUES = [None, True, False, 0, 1, -1, 1.5, 0.0, {}, {'a': 'b'},
           [[['role:a']]], [[['@']]], [['@', ['@']]], [[]], [''], [['']],
           [[], []], ['', ''], [[''], []], [['@'], None], ['@', 0],
           [None, '@'], [{'@': 1}, '@'], [['@', 1]], [['@', None]],
-          [['@', {}]], [['@', True]]]
+          [['@', {}]], [['@', True]],
+          # list entries that are strings with blanks in them: each is ONE
+          # check that is not of the form kind:match
+          [' @'], ['@ '], ['@ @'], ['@\t@'], ['@\n'], ['role:a @'], [[' @']],
+          [['@ @']], ['!', '@ '], [' ']]
 ALWAYS_ALLOW = ('', [], '@')
 S5_CREDS = [{}, {'roles': []}, {'roles': ['a']},
             {'roles': ['a', 'b', 'admin'], 'is_admin': True, 'a': 'b'}]
